@@ -2988,6 +2988,10 @@ impl HnswBackend {
                 .collect();
         }
 
+        // `scan` takes `doc_store.read()` itself; re-acquiring it while still holding the guards
+        // above deadlocks as soon as a writer queues for `doc_store` in between.
+        drop(meta_index);
+        drop(store);
         self.scan(|meta| metadata_filter::matches(filter, meta))
     }
 
